@@ -642,6 +642,49 @@ example : ∃ sf, runLoop (machine failingExt false) none 5 0 (sHalt 1) = .error
     demo_failed_small
   exact ⟨sf, h1, h2, h3⟩
 
+/-! ### T07.4 without `CalleeOkAlong` (see Proofs/C13.lean, "T13.3 without `CalleeOkAlong`") -/
+
+/-- **T07.4, closed**: from the bundled invariant `VmOk` and the two clauses `PInv` of the initial states — of the
+    failing evaluation (`s`) and of the later evaluation on both machines (`s2`, `t2`: what `prepare_eval` made of
+    the failed VM and of its twin) —, the laws of the unmodelled parts (`ExtLaws`, `ExtGood`, `ExtCodeLawsV`,
+    `ExtProc`, `CompLaws`, `CompGood`) and the size bound. No hypothesis along the runs. -/
+theorem failed_eval_equivalent_later_closed (ext : ExtOps) (force : Bool) (el : ExtLaws ext) (eg : ExtGood ext)
+    (ecl : ExtCodeLawsV ext) (ep : ExtProc ext)
+    (comp : CHeap → VCell → Outcome (CHeap × VCell)) (cl : CompLaws comp) (cg : CompGood comp)
+    (count : Option Nat) (fuel : Nat) (s : St CHeap) (f : Fault) (s1 : St CHeap)
+    (hfail : runEval (concreteOps ext) (cgc force) count fuel s = .failed f s1)
+    (h0 : VmOk ext ecl s) (p0 : PInv s) (sb : SizeBounded (machine ext force) s) (sm1 : Small s1.heap) :
+    ∃ sf, runLoop (machine ext force) count fuel 0 s = .error f sf ∧ s1 = cgc force (onError sf) ∧
+      (∃ ψ, Sim ψ s1 (onError sf)) ∧
+      ∀ (d : VCell) (s2 t2 : St CHeap), addrFree d = true →
+        prepareEval comp s1 d = .ok s2 → prepareEval comp (onError sf) d = .ok t2 →
+        SizeBounded (machine ext force) s2 → VmOk ext ecl s2 → PInv s2 →
+        SizeBounded (machine ext force) t2 → VmOk ext ecl t2 → PInv t2 →
+        ∀ k : Nat,
+          (∀ t', pureN (machine ext force) k t2 = .done t' →
+            ∃ s' t'', run (machine ext force) k s2 = .done s' ∧ run (machine ext force) k t2 = .done t'' ∧
+              ∀ fl, resultObs fl s' = resultObs fl t'') ∧
+          (∀ e t', pureN (machine ext force) k t2 = .error e t' →
+            ∃ s' t'', run (machine ext force) k s2 = .error e s' ∧ run (machine ext force) k t2 = .error e t'' ∧
+              (∃ ψ, Sim ψ s' t' ∧ All2 (AddrRel ψ) (traceFrames s') (traceFrames t')) ∧
+              (∃ ψ, Sim ψ t'' t' ∧ All2 (AddrRel ψ) (traceFrames t'') (traceFrames t'))) := by
+  obtain ⟨sf, h1, h2, h3, h4⟩ := failed_eval_equivalent_later_wf ext force el eg ecl comp cl cg count fuel s f s1 hfail
+    h0 sb (calleeOkAlong_of_vmOk force el eg ep h0 p0 sb) sm1
+  refine ⟨sf, h1, h2, h3, ?_⟩
+  intro d s2 t2 hd hs2 ht2 sb2 v2 p2 sbt vt pt k
+  exact h4 d s2 t2 hd hs2 ht2 sb2 v2 (calleeOkAlong_of_vmOk force el eg ep v2 p2 sb2) sbt vt
+    (calleeOkAlong_of_vmOk force el eg ep vt pt sbt) k
+
+open Marwood.Lemmas.Good.Demo in
+/-- non-vacuity: the failing demo evaluation, every hypothesis discharged -/
+example : ∃ sf, runLoop (machine failingExt false) none 5 0 (sHalt 1) = .error (.err .invalidBytecode) sf ∧
+    cgc false (onError (sHalt 1)) = cgc false (onError sf) ∧ (∃ ψ, Sim ψ (cgc false (onError (sHalt 1))) (onError sf)) := by
+  obtain ⟨sf, h1, h2, h3, _⟩ := failed_eval_equivalent_later_closed failingExt false failingExt_laws failingExt_good
+    failingExt_codeLawsV failingExt_proc
+    (fun _ _ => .err .invalidSyntax) ⟨fun _ _ _ _ _ _ _ _ _ _ => .err⟩ ⟨fun _ _ _ _ _ _ _ h => (by cases h)⟩
+    none 5 (sHalt 1) _ _ demo_failed_eval (sHalt1_vmOk _ _) (sHalt_pinv 1) (sHalt_sizeBounded1 _) demo_failed_small
+  exact ⟨sf, h1, h2, h3⟩
+
 end ConcreteSim
 
 end Marwood.Proofs.C07
